@@ -928,10 +928,33 @@ func evalActionDelete(node *ActionExpression, env *Environment) Object {
 			return newError("an operand in the update expression has an incorrect data type")
 		}
 
-		return addObj.Delete(val)
+		result := addObj.Delete(val)
+		if isError(result) {
+			return result
+		}
+
+		if isEmptySet(obj) {
+			// there are no empty sets: the attribute goes away with its last element
+			env.Remove(id.Value)
+		}
+
+		return result
 	}
 
 	return UNDEFINED
+}
+
+func isEmptySet(obj Object) bool {
+	switch set := obj.(type) {
+	case *StringSet:
+		return len(set.Value) == 0
+	case *NumberSet:
+		return len(set.Value) == 0
+	case *BinarySet:
+		return len(set.Value) == 0
+	}
+
+	return false
 }
 
 func evalActionRemove(node *ActionExpression, env *Environment) Object {
